@@ -77,15 +77,15 @@ def run(tier, seed):
     exe = dc.driver()
     R = "reply"
     gens = [
-        ("C33_answers", {"Mode": R, "QTypes": {1, 28, 12}, "RRIdx": range(1, 26), "MaxAn": 1 if q else 2}),
-        ("C33_pairs", {"Mode": R, "QTypes": {1, 12}, "RRIdx": {1, 2, 6, 7, 8, 9, 12, 13, 21} if q else range(1, 14), "MaxAn": 2 if q else 3}),
+        ("C33_answers", {"Mode": R, "QTypes": {1, 28, 12}, "RRIdx": range(1, 31), "MaxAn": 1 if q else 2}),
+        ("C33_pairs", {"Mode": R, "QTypes": {1, 12}, "RRIdx": {1, 2, 6, 7, 8, 9, 12, 13, 21, 27, 29} if q else (set(range(1, 14)) | {26, 27, 28, 29}), "MaxAn": 2 if q else 3}),
         ("C33_header", {"Mode": R, "QTypes": {1, 12}, "FlagIdx": range(1, 9), "QIdx": range(1, 9), "RRIdx": {1, 8}, "NsIdx": {1, 2}, "IdSet": {0, 1},
                         "MaxAn": 1}),
         ("C33_shape", {"Mode": R, "QTypes": {1, 28, 12}, "RRIdx": {1, 4, 6, 8, 13}, "NsIdx": {1, 2, 3}, "ArIdx": {1, 2}, "CntIdx": range(1, 8),
                        "CutSet": {0, 1, 3, 11}, "MaxAn": 1}),
     ]
     if not q:
-        gens.append(("C33_rand", {"Mode": R, "QTypes": {1, 28, 12}, "FlagIdx": range(1, 9), "QIdx": range(1, 9), "RRIdx": range(1, 26),
+        gens.append(("C33_rand", {"Mode": R, "QTypes": {1, 28, 12}, "FlagIdx": range(1, 9), "QIdx": range(1, 9), "RRIdx": range(1, 31),
                                   "NsIdx": {1, 2, 3}, "ArIdx": {1, 2}, "CntIdx": range(1, 8), "CutSet": {0, 1, 2, 3, 5, 11, 17, 30},
                                   "IdSet": {0, 1}, "MaxAn": 4, "Random": True, "RandomN": 8000}))
     msgs, seen = [], set()
@@ -114,7 +114,7 @@ def run(tier, seed):
     for m in [x for x in msgs if x["res"]["k"] == "ok"][:2] + [x for x in msgs if x["res"]["k"] == "ignored"][:1]:
         chk.sample({"query_type": m["qt"], "reply_hex": dc.hexb(m["b"]), "tokens": m["tok"], "reference_verdict": m["res"]})
     chk.cov["rule"] = ("TLC builds reply messages from tokens (8 header variants: AA, QR clear, NXDOMAIN, SERVFAIL, TC, REFUSED, NOTIMPL; 8 question "
-                       "variants: echo, other name, none, other case, other type, two questions, class CH, pointer loop; 25 RR tokens: A / AAAA / "
+                       "variants: echo, other name, none, other case, other type, two questions, class CH, pointer loop; 30 RR tokens (incl. one RR with 2/16/64/100 A or 2/17 AAAA addresses): A / AAAA / "
                        "CNAME / PTR with pointers back / forward / out of range / into the header / mid-label / self loop, reserved label types, "
                        "wrong class, 3/8-byte A, lying RDLENGTH, TTL 0 and 2^31-1; SOA / junk authority; OPT; 7 count distortions; truncation; "
                        "right / wrong id), checks the reference (decode o encode = id, soundness of 'ok', case monotonicity) and emits bytes + "
